@@ -214,11 +214,11 @@ pub fn worker(args: &[String]) -> i32 {
     }
     if res.is_ok() {
         let (total, depth) = match (which, tier) {
-            (Which::C14, Tier::Quick) => (2400usize, 10usize),
+            (Which::C14, Tier::Quick) => (16_000usize, 12usize),
             (Which::C14, Tier::Thorough) => (300_000, 16),
-            (Which::C15, Tier::Quick) => (4800, 10),
+            (Which::C15, Tier::Quick) => (40_000, 12),
             (Which::C15, Tier::Thorough) => (1_000_000, 20),
-            (Which::C19, Tier::Quick) => (800, 8),
+            (Which::C19, Tier::Quick) => (6000, 10),
             (Which::C19, Tier::Thorough) => (100_000, 12),
         };
         let per = (total / nshards).max(1) as u32;
